@@ -318,7 +318,21 @@ class BaseWSGIServer(wasyncore.dispatcher):
                 self.logger.warning("server accept() threw an exception", exc_info=True)
             return
         addr = self.fix_addr(addr)
-        self.channel_class(self, conn, addr, self.adj, map=self._map)
+        try:
+            self.channel_class(self, conn, addr, self.adj, map=self._map)
+        except OSError:
+            # The remote may already be gone (see above), in which case
+            # getsockopt() or setblocking() on the new socket fail while the
+            # channel is being set up.  That must not reach handle_error()
+            # of the *listening* socket, which would close it.
+            if self.adj.log_socket_errors:
+                self.logger.warning(
+                    "server could not set up an accepted connection", exc_info=True
+                )
+            try:
+                conn.close()
+            except OSError:
+                pass
 
     def run(self):
         try:
